@@ -552,7 +552,7 @@ func main() {
 					if k, m := runSeq(c); k != "" {
 						s.Fail(fmt.Sprintf("%s %v %v sub=%d", k, pred(p), hist, sub), m, c)
 					}
-					if sub == 0 && (p%3 == 0 || s.Thorough) {
+					if p%3 == 0 || s.Thorough {
 						// the same history once more with a read mask that hides what the predicate reads
 						cm := c
 						cm.Masked = true
